@@ -19,6 +19,18 @@ func (k *Keys) GetCursorPos() (x, y int) {
 	var cursor []byte
 	var match [][]string
 
+	// Let the main key reading routine know that the next
+	// cursor position it reads on the terminal is for us.
+	k.mutex.Lock()
+	k.asked++
+	k.mutex.Unlock()
+
+	defer func() {
+		k.mutex.Lock()
+		k.asked--
+		k.mutex.Unlock()
+	}()
+
 	// Echo the query and wait for the main key
 	// reading routine to send us the response back.
 	fmt.Print("\x1b[6n")
@@ -97,6 +109,16 @@ func (k *Keys) readInputFiltered() (keys []byte, err error) {
 	cursor, keys := k.extractCursorPos(buf[:read])
 
 	if len(cursor) > 0 {
+		k.mutex.RLock()
+		asked := k.asked > 0
+		k.mutex.RUnlock()
+
+		// Nobody asked for the cursor position: what looks like one has been typed
+		// (Ctrl-F3 sends the same sequence), and nobody would ever receive it.
+		if !asked {
+			return buf[:read], nil
+		}
+
 		k.cursor <- cursor
 	}
 
